@@ -106,7 +106,20 @@ def check(prop_id, tier, seed):
     for name, ob, k in known_hits:
         print(f'KNOWN-FINDING: property={prop_id} {k["what"]} [obligation {name}]')
     exit_code = 0
+    fixed_replays = {k['obligation']: k for k in load_known() if k.get('status') == 'fixed' and k.get('replay')}
     for name, ob in violations:
+        # a defect that was repaired and has come back: its committed replay test is the failing input on the real code
+        k = fixed_replays.get(name)
+        if k and os.environ.get('VX_NO_REPLAY') != '1':
+            test = os.path.join(ROOT, k['replay'].split('::')[0])
+            try:
+                import subprocess
+                pr = subprocess.run([os.path.join(ROOT, 'tools', 'run_replay.sh'), test, REPO], capture_output=True, text=True, timeout=2400)
+                ob['replay'] = f'$ tools/run_replay.sh {k["replay"]}  (exit {pr.returncode})\n' + pr.stdout[-3000:]
+                if pr.returncode != 0 and 'test result: FAILED' in pr.stdout:
+                    ob['cex'] = f'failing input recorded for this obligation: {k.get("what", "")} -- replay test {k["replay"]} FAILS on the current tree'
+            except Exception as e:  # noqa
+                ob['replay'] = f'replay could not be run: {e}'
         path = os.path.join(ROOT, 'replays', f'{prop_id}-{name}.txt')
         with open(path, 'w') as f:
             f.write(f'property: {prop_id}\nfailed obligation: {name}\nengine: {ob["engine"]} ({ob["unit"]})\n')
